@@ -3,7 +3,7 @@ import json
 import common
 
 PROPS = "RotoV.Props.C13"
-EXTRA = ["RotoV.Lemmas.Scope", "RotoV.Lemmas.ScopePath", "RotoV.Lemmas.ScopeFrame", "RotoV.Lemmas.ScopeBuild", "RotoV.Lemmas.ScopeDiscovery", "RotoV.Lemmas.ScopeExport", "RotoV.Lemmas.ScopeWitness", "RotoV.Lemmas.ScopeImports", "RotoV.Lemmas.ScopeTermination", "RotoV.Lemmas.ScopeGetFunction", "RotoV.Lemmas.ScopeNoPanic", "RotoV.Lemmas.ScopeAlias", "RotoV.Model.Scope"]
+EXTRA = ["RotoV.Lemmas.Scope", "RotoV.Lemmas.ScopePath", "RotoV.Lemmas.ScopeFrame", "RotoV.Lemmas.ScopeBuild", "RotoV.Lemmas.ScopeDiscovery", "RotoV.Lemmas.ScopeExport", "RotoV.Lemmas.ScopeWitness", "RotoV.Lemmas.ScopeImports", "RotoV.Lemmas.ScopeTermination", "RotoV.Lemmas.ScopeGetFunction", "RotoV.Lemmas.ScopeNoPanic", "RotoV.Lemmas.ScopeAlias", "RotoV.Lemmas.ScopeImportsLoop", "RotoV.Lemmas.ScopeImportsComplete", "RotoV.Model.ScopeImportsLoop", "RotoV.Model.Scope"]
 
 
 def search(ctx):
@@ -14,7 +14,7 @@ def search(ctx):
 
 
 def run(ctx):
-    ctx.extract(["scopefacts"])
+    ctx.extract(["scopefacts", "scopeimports"])
     ctx.prove(PROPS, extra_modules=EXTRA)
     if ctx.build_harness("c13"):
         ctx.harness("c13", ["run", ctx.seed, ctx.tier], timeout=3000)
@@ -28,6 +28,10 @@ def run(ctx):
         "the parser's expansion of nested import lists is re-implemented in the harness (prefix ++ sub-path) and "
         "checked through the resulting import tables",
         "identifiers are abstract numbers; the lexer/parser decide what is an identifier (C09/C06)",
+        "translator target scopeimports: the body of TypeChecker::imports is transliterated statement by statement "
+        "into the little language of Model/ScopeImportsLoop.lean (the meaning of `retain(|p| import(p).is_err())` and of "
+        "`for p in &paths { import(p)?; }` is retainPass / importAll of the hand model); any other statement form is an "
+        "extraction failure",
         "translator target scopefacts (extract/src/targets/c13.rs): locates the consulted tables / literals by what "
         "is consulted (method names, receivers, compared variables), not by code shape",
     ]
